@@ -162,6 +162,10 @@ func RandGenBank(r *rand.Rand, o GBOpt, labelPrefix string) seqio.GenBank {
 	}
 	for i, n := 0, r.Intn(4); i < n; i++ {
 		ref := seqio.Reference{Number: i + 1}
+		if r.Intn(6) == 0 {
+			// records with many references: two- and three-digit numbers.
+			ref.Number = []int{10, 24, 99, 100, 101, 250, 996}[r.Intn(7)] + i
+		}
 		if L > 0 && r.Intn(3) != 0 {
 			a := r.Intn(L)
 			ref.Info = fmt.Sprintf("(%s %d to %d)", f.Molecule.Counter(), a+1, a+1+r.Intn(L-a))
